@@ -266,3 +266,7 @@ MUTANTS += [
      '    config, tower, met_index = args\n    # Reset inherited state from parent process to avoid fork-safety issues\n',
      '    config, tower, met_index = args\n    # Reset inherited state from parent process to avoid fork-safety issues\n    os.environ["NUMBA_NUM_THREADS"] = "1"\n'),
 ]
+
+MUTANTS += [
+    ("c08_unsigned_speed_negated_first", "C08", "utils.py", "    u = -(u_rot * np.sin(wind_dir))\n", "    u = -u_rot * np.sin(wind_dir)\n"),
+]
